@@ -6,14 +6,18 @@ package main
 // assigned", so the model ignores it): w = an attempt whose watermark query failed, c = an attempt whose Committed query
 // failed, a = an attempt whose Assign failed, o = a successful assignment; a trailing r = followed by a revocation.
 // Earlier attempts see other committed offsets and watermarks and skip nothing (so they file no request).
+// retry / xretry: the judged assignment arrives as a rebalance event; its first attempt cannot read the committed offsets,
+// so the source has to retry (3 s later) — with xretry after a revocation during which Unassign failed.
 
 import (
+	"errors"
 	"fmt"
 	"math"
 	"sort"
 	"strconv"
 	"strings"
 	"sync"
+	"time"
 
 	"github.com/confluentinc/confluent-kafka-go/kafka"
 
@@ -61,6 +65,8 @@ func genOffsets(r *rng, n int, tier string, emit func(string)) {
 		"5 1 100 0 0 ;",                                              // no partitions
 		"5 1 9223372036854775807 0 0 ; 0 10 0 4611686018427387904 0", // unlimited maxrecords
 		"5 1 9223372036854775800 0 0 ; 0 0 0 100 0 ; 1 50 0 100 0",
+		"5 1 100 0 0 ; 0 10 0 30 0 ; 1 4 0 5 0 ; @ retry", // the first attempt of the rebalance cannot read the committed offsets
+		"5 1 100 0 0 ; 2 10 0 30 0 ; @ xretry",            // … after a revocation during which Unassign failed
 	} {
 		emit(c)
 	}
@@ -202,7 +208,7 @@ func execOffsets(input string) string {
 		}
 	}
 	kc := kafkaconsumer.VerifNewKafkaConsumer(sc, topic, sendCh, int(maxLag), m, rc, ctx)
-	if history != "" && len(tps) > 0 {
+	if history != "" && !strings.HasSuffix(history, "retry") && len(tps) > 0 {
 		// an earlier attempt on the same consumer, against a client in another state; it skips nothing
 		saved := *sc
 		sc.committed, sc.low, sc.high, sc.wmErr = map[int32]int64{}, map[int32]int64{}, map[int32]int64{}, map[int32]bool{}
@@ -247,7 +253,37 @@ func execOffsets(input string) string {
 			rc.SetAssignedPartitions([]kafka.TopicPartition{{Topic: &topic, Partition: 999}})
 		}
 	}
-	err := kc.VerifAssignPartitions(tps)
+	var err error
+	if strings.HasSuffix(history, "retry") && len(tps) > 0 {
+		if history == "xretry" {
+			sc.unassignErr = true
+			kc.VerifRevoke()
+			sc.unassignErr = false
+			sc.mu.Lock()
+			sc.calls, sc.assigned, sc.lastAssign = nil, false, nil
+			sc.mu.Unlock()
+			if rc != nil {
+				rc.SetAssignedPartitions([]kafka.TopicPartition{{Topic: &topic, Partition: 999}})
+			}
+		}
+		sc.mu.Lock()
+		sc.committedErrOnce = true
+		sc.mu.Unlock()
+		kc.VerifProcessEvent(kafka.AssignedPartitions{Partitions: tps})
+		err = errors.New("not assigned")
+		for t0 := time.Now(); time.Since(t0) < 4500*time.Millisecond; time.Sleep(5 * time.Millisecond) {
+			sc.mu.Lock()
+			done := sc.assigned
+			sc.mu.Unlock()
+			if done {
+				err = nil
+				time.Sleep(20 * time.Millisecond) // let the retry loop finish telling the recovery consumer
+				break
+			}
+		}
+	} else {
+		err = kc.VerifAssignPartitions(tps)
+	}
 	res := "ok"
 	if err != nil {
 		res = "err"
